@@ -95,7 +95,8 @@ BUDGET = {"quick": (1200, 4), "thorough": (26000, 16)}
 @st.composite
 def case(draw, tier):
     control = draw(st.integers(0, 5)) == 0
-    return {"script": draw(tdm_script(tier, control)), "layout": draw(K.layout_light()), "control": control}
+    return {"script": draw(tdm_script(tier, control)), "layout": draw(K.layout_light()), "control": control,
+            "include": draw(st.integers(0, 3)) == 0}
 
 
 def strategy(tier):
@@ -103,6 +104,20 @@ def strategy(tier):
 
 
 dump_case, load_case = K.dump_case, K.load_case
+
+
+_HELPER = {}
+
+
+def _helper_file():
+    import atexit, os, shutil, tempfile
+    if "p" not in _HELPER:
+        d = tempfile.mkdtemp(prefix="bbv-c15-")
+        atexit.register(shutil.rmtree, d, True)
+        _HELPER["p"] = os.path.join(d, "helper.xbb")
+        with open(_HELPER["p"], "w", encoding="ascii") as f:
+            f.write("name helper\nversion 1.0\nfloat array p0 =\n    0.5, 0.25\nSgate(p0[0]) | 0\n")
+    return _HELPER["p"]
 
 
 def check(c):
@@ -114,6 +129,15 @@ def check(c):
     text = K.render_case(c)
     feats, nstmt = K.features(script)
     import re
+    if c.get("include"):
+        # the tdm script also includes another (ordinary, never applied) program: what the included file declares about
+        # itself does not change how the including program treats its p-arrays
+        lines = text.split("\n")
+        tline = [i for i, l in enumerate(lines) if l.lstrip().startswith("type")]
+        if tline:
+            lines.insert(tline[0] + 1, 'include "%s"' % _helper_file())
+            text = "\n".join(lines)
+            feats = set(feats) | {"include-line"}
     pnames = [it.name for it in script.items if isinstance(it, A.ArrayDecl) and re.match(r"^p[0-9]+$", it.name)]
     out = Outcome(key=text, sample={"script": text}, classes=sorted(feats | {"control" if c["control"] else "tdm", "p-arrays:%d" % len(pnames)}))
     out.nontrivial = len(pnames) >= 2 and bool(feats & {"scalar", "param"} or len([1 for it in script.items if isinstance(it, A.ArrayDecl)]) > len(pnames))
